@@ -199,6 +199,11 @@ func checkDerived(c *hc.Ctx, method string, in *canvas.Path, out []*canvas.Path,
 	for k, v := range replay {
 		r[k] = v
 	}
+	if n := len(o.Data()); n > 0 && n <= 300 && (c.Tier == "quick" || c.Chance(0.4)) {
+		// the same judgement by the Lean specification (wfArray: decode + subpath automaton on bit patterns)
+		c.Case("W "+hc.DataHex(o.Data()), "!", "derived-wf-lean:"+method)
+		c.Count("case:W:" + method)
+	}
 	bad, closedOut := framing(o.Data())
 	if bad != "" {
 		fail(c, "derived-wf:"+method+":"+ruleOf(bad), method+" returned an ill-framed path: "+bad, r)
